@@ -39,6 +39,9 @@ pub struct NodeB {
     pub xfer: Option<(u64, usize)>,
     // ---- C13: snapshots sent and neither reported nor acknowledged
     pub snap_out: HashMap<u64, u64>,
+    /// followers whose snapshot request reached this node in its current leadership and has not been
+    /// answered by a status report yet
+    pub snap_req: HashSet<u64>,
 }
 
 #[derive(Default)]
@@ -163,6 +166,7 @@ impl Mon {
         nb.caps.clear();
         nb.min_anchor.clear();
         nb.snap_out.clear();
+        nb.snap_req.clear();
         nb.prevote_grants.clear();
         nb.transfer_ticks = (0, 0);
         nb.xfer = None;
@@ -252,6 +256,7 @@ impl Mon {
             nb.u_true = 0;
             nb.min_anchor.clear();
             nb.snap_out.clear();
+            nb.snap_req.clear();
             nb.transfer_ticks = (0, 0);
         }
 
@@ -717,6 +722,15 @@ impl Mon {
         match kind {
             CallKind::ReportSnapshot(f, _) => {
                 self.b.nb[ni].snap_out.remove(f);
+                // a status report only concludes a request whose snapshot is actually under way
+                if pr_of(pre, *f).map_or(true, |p| p.state == ProgressState::Snapshot) {
+                    self.b.nb[ni].snap_req.remove(f);
+                }
+            }
+            CallKind::Step(m)
+                if m.get_msg_type() == MessageType::MsgAppendResponse && m.reject && m.request_snapshot != 0 && same_lead && m.term == pre.term =>
+            {
+                self.b.nb[ni].snap_req.insert(m.from);
             }
             CallKind::Step(m) if m.get_msg_type() == MessageType::MsgAppendResponse && !m.reject => {
                 if let Some(s) = self.b.nb[ni].snap_out.get(&m.from).copied() {
@@ -794,7 +808,9 @@ impl Mon {
                     self.b.nb[ni].snap_out.insert(m.to, m.get_snapshot().get_metadata().index);
                     if self.on(P15) {
                         let p = pr_of(post, m.to);
-                        let requested = p.map_or(false, |p| p.pending_request_snapshot != 0);
+                        // asked for: the request was delivered to this node while it has been leader of this
+                        // term (the node's own bookkeeping is not taken as evidence)
+                        let requested = self.b.nb[ni].snap_req.contains(&m.to);
                         let unavailable = p.map_or(false, |p| p.next_idx <= post.log.base);
                         if !requested && !unavailable {
                             self.violation(
